@@ -1,0 +1,64 @@
+//! Scheduling hooks for external verification harnesses.
+//!
+//! Only compiled with the cargo feature `verif-hooks`. The crate calls
+//! [`yield_point`] at named places inside transaction begin / commit / drop and
+//! [`before_lock`] ahead of every lock acquisition. Both are no-ops unless the
+//! calling thread installed [`Hooks`], so enabling the feature does not change
+//! behaviour for threads that did not opt in.
+
+use std::{cell::RefCell, rc::Rc};
+
+/// Callbacks installed per thread by a harness.
+pub struct Hooks {
+    /// Called at a named point where the thread may be descheduled.
+    pub yield_point: Box<dyn Fn(&'static str)>,
+    /// Called before a blocking lock acquisition. The second argument tries to
+    /// take (and immediately release) the lock and returns whether that worked.
+    /// The callback must return only once the lock can be taken without blocking.
+    pub before_lock: Box<dyn Fn(&'static str, &dyn Fn() -> bool)>,
+}
+
+thread_local! {
+    static HOOKS: RefCell<Option<Rc<Hooks>>> = const { RefCell::new(None) };
+}
+
+/// Installs hooks for the current thread.
+pub fn install(hooks: Hooks) {
+    HOOKS.with(|h| *h.borrow_mut() = Some(Rc::new(hooks)));
+}
+
+/// Removes the current thread's hooks.
+pub fn uninstall() {
+    let _ = HOOKS.try_with(|h| h.borrow_mut().take());
+}
+
+fn current() -> Option<Rc<Hooks>> {
+    HOOKS.try_with(|h| h.borrow().clone()).ok().flatten()
+}
+
+pub(crate) fn yield_point(name: &'static str) {
+    if let Some(h) = current() {
+        (h.yield_point)(name);
+    }
+}
+
+pub(crate) fn before_lock(kind: &'static str, try_acquire: &dyn Fn() -> bool) {
+    if let Some(h) = current() {
+        (h.before_lock)(kind, try_acquire);
+    }
+}
+
+/// `true` unless the lock is currently held by someone else.
+pub(crate) fn can_lock<T>(m: &std::sync::Mutex<T>) -> bool {
+    !matches!(m.try_lock(), Err(std::sync::TryLockError::WouldBlock))
+}
+
+/// `true` unless a writer currently holds the lock.
+pub(crate) fn can_read<T>(l: &std::sync::RwLock<T>) -> bool {
+    !matches!(l.try_read(), Err(std::sync::TryLockError::WouldBlock))
+}
+
+/// `true` unless any reader or writer currently holds the lock.
+pub(crate) fn can_write<T>(l: &std::sync::RwLock<T>) -> bool {
+    !matches!(l.try_write(), Err(std::sync::TryLockError::WouldBlock))
+}
